@@ -270,6 +270,89 @@ def main(tier):
                 elif e["syn"] == "oer":
                     ml.append("oerdec %s %s" % (c["ts"], e["hex"]))
                     meta.append((c, e))
+        # ---- the extracted machines and the More/Fail reference decoder against the C
+        m3, meta3 = [], []
+        for (c, e, line) in sweeps:
+            if c.get("wide") or e["syn"] != "ber" or e.get("expect_oneshot_fail") or e["v"].segmented or len(e["hex"]) > 400:
+                continue
+            sw = oneshot.get((c["tn"], e["syn"], e["hex"]))
+            if sw is None:
+                continue
+            sw = sw[0]
+            n = sw["n"]
+            tree = m["trees"][c["tn"]]
+            # (a) ber_dec3 on the whole encoding and on sampled proper prefixes
+            for pl in sorted(set([n] + [rng.below(n) for _ in range(3)])):
+                m3.append("berdec3 %s %s" % (c["ts"], e["hex"][:2 * pl] or "-"))
+                meta3.append(("dec3", c, e, sw, pl))
+            # (b) the primitive machine under the schedules the C was fed with
+            if tree[0] in "bnio":
+                for (c2, e2, sc, fl) in feeds:
+                    if c2 is c and e2 is e and fl.startswith("feed "):
+                        m3.append("primfeed %d %s %s" % (tree[1], e["hex"], sc))
+                        meta3.append(("prim", c, e, sw, fl))
+            # (c) the tag-chain machine predicts the C's deviation on indefinite chains of a constructed type
+            tags, t = [], tree
+            while t[0] == "x":
+                tags.append(t[1])
+                t = t[2]
+            if tags and t[0] in "sqt" and e["v"].chains:
+                tags.append(t[1])
+                st, ends, ind, kc = e["v"].chains[0]
+                if st == 0 and ind and len(ends) == len(tags):
+                    m3.append("chainfeed %s %s %d" % (",".join(map(str, tags)), e["hex"], n))
+                    meta3.append(("chain1", c, e, sw, None))
+                    for sp in range(ends[0], ends[-1]):
+                        m3.append("chainfeed %s %s %d" % (",".join(map(str, tags)), e["hex"], sp))
+                        meta3.append(("chain", c, e, sw, sp))
+        if m3:
+            rcm, mo3, me = run_lines(model, m3, timeout=1200)
+            if rcm != 0 or len(mo3) != len(m3):
+                raise RuntimeError("model driver failed (C05 machines): %s %s" % (rcm, me))
+            feedres = {fl: r for (c2, e2, sc, fl), r in zip(feeds, o)}
+            left1 = None
+            for (kind, c, e, sw, x), l, r in zip(meta3, m3, mo3):
+                run.case(l)
+                run.count("model_" + l.split()[0])
+                bad = None
+                if kind == "dec3":
+                    n = sw["n"]
+                    if x == n:
+                        c_res = "OK %d" % sw["consumed"] if sw["rc"] == "OK" else sw["rc"]
+                        m_res = " ".join(r.split()[:2]) if r.startswith("OK") else r
+                        if r.startswith("OK") and r.split()[2] != c["vs"] and "t" not in c["ts"]:
+                            bad = "value"
+                    else:
+                        bp = [b for b in sw["badprefix"] if b[0] == x]
+                        c_res = bp[0][1] if bp else "MORE"
+                        m_res = r.split()[0]
+                    if c_res != m_res:
+                        bad = "code"
+                    if bad:
+                        run.violation("correspondence:Resume.ber_dec3", {"what": "the More/Fail reference decoder and the C disagree on a prefix of %d octets (%s): C %s, model %s" % (x, bad, c_res, r[:200]),
+                                                                      "model_type": c["ts"], "command_line": l[:3000]}, no_input=True)
+                elif kind == "prim":
+                    cr = feedres.get(x, "").split()
+                    mr = r.split()
+                    der = bytes.fromhex(c["der"])
+                    cont = der[U.read_tl(der, 0)[4]:].hex() or "-"
+                    okc = len(cr) == 4 and cr[0] == mr[0] and cr[1] == mr[1] and (cr[0] != "OK" or (cr[2] == c["der"] and mr[2] == cont))
+                    if not okc:
+                        run.violation("correspondence:Resume.prim_step", {"what": "the primitive machine fed in chunks and the C disagree: C %s, model %s" % (" ".join(cr)[:200], r[:200]),
+                                                                        "model_type": c["ts"], "command_line": l[:3000], "c_command": x[:3000]}, no_input=True)
+                elif kind == "chain1":
+                    left1 = int(r.split()[3][5:]) if r.startswith("OK") else None
+                elif kind == "chain":
+                    f = r.split()
+                    if left1 is None or f[0] != "OK":
+                        continue
+                    lost = int(f[3][5:]) - left1            # end-of-contents pairs the restarted machine forgets
+                    bs = [b for b in sw["badsplit"] if b[0] == x]
+                    pred = sw["consumed"] - 2 * lost
+                    got = bs[0][2] if bs else sw["consumed"]
+                    if sw["rc"] == "OK" and (got != pred or (bs and bs[0][1] != "OK")):
+                        run.violation("correspondence:Resume.chain_step", {"what": "split at %d: the tag-chain machine forgets %d end-of-contents pair(s), so the C should stop at %d; it reports %s" % (x, lost, pred, bs[0] if bs else "the one-shot result"),
+                                                                         "model_type": c["ts"], "command_line": l[:3000]}, no_input=True)
         if ml:
             rcm, mo, me = run_lines(model, ml, timeout=1200)
             for (c, e), l, r in zip(meta, ml, mo):
